@@ -9,15 +9,17 @@ EXPLANATION = ('Proved (polynomials of any length): compare implements the lexic
                'Den(self) + Den(other) (while-loop contract, compare abstracted by its contract); Polynomial.__bool__/__eq__(0) are exact zero '
                'tests on the enumerated well-formed shapes and the explicit zero; RationalPolynomial.__add__/__mul__/__neg__/__sub__/inv/'
                '__truediv__ denote the sum/product/... of the rational functions of their operands and keep the denominator non-zero '
-               '(value-level model of Polynomial through its contracts; nonlinear real arithmetic).  Not under contract (bounded only): '
-               'Polynomial.__mul__ (sorted factor merge), the common-factor removal of RationalPolynomial.__mul__, __pow__ via power_supply, '
-               'tosympy.  Bounded: seeded expression trees on the real classes against exact rational-function arithmetic.')
+               '(value-level model of Polynomial through its contracts; nonlinear real arithmetic); Polynomial.__mul__ (nested loops, prefix-product '
+               'ghost), the common-factor loop of RationalPolynomial.__mul__; __pow__ for EVERY integer exponent: Polynomial/RationalPolynomial.__pow__ '
+               'return the last value of power_supply(self, |n|) (inverted for n < 0), power_supply yields x ** e for every element e of the addition '
+               'chain of n (loop invariant over a chain of unknown length), and AdditionChains.minimal_chains returns well-formed chains for every '
+               'limit (invariant over its three nested loops).  Not under contract (bounded only): tosympy.  Bounded: seeded expression trees on the real classes against exact rational-function arithmetic.')
 TRUSTED = ['z3 5.1 (python API, nlsat for the rational-function posts)', 'kvc VC generator', 'CPython ast module']
 ASSUMPTIONS = [K.ASSUME_CPYTHON, 'coefficients are numbers modelled as reals: floating-point rounding is not modelled (division by a plain number goes through 1/n in floats)',
                'distinct monomials are linearly independent, so a well-formed non-empty polynomial is not the zero function (mathematics)',
                'the order on variable lists is embedded in the reals (any countable total order embeds in the rationals)',
                'operands are well formed (WF): the shapes code generation produces']
-ASSUMED = ['Polynomial.__mul__', 'RationalPolynomial.__mul__ common-factor branch (single monomials)', 'Polynomial/RationalPolynomial.__pow__ (power_supply)', 'tosympy (sympy)']
+ASSUMED = ['tosympy (sympy)', 'powers of one element associate and commute under * (the only fact the power_supply contract uses about the operation)']
 
 
 def build(H, tier, seed):
@@ -26,6 +28,10 @@ def build(H, tier, seed):
     P.vc_rational(H)
     P.vc_zero_tests(H)
     P.vc_poly_mul(H)
+    from contracts import powers_c as PW
+    PW.vc_poly_pow(H)
+    PW.vc_power_supply(H)
+    PW.vc_minimal_chains(H)
 
 
 def standins(tier, seed):
